@@ -100,6 +100,33 @@ pub fn run(toks: &[&str], out: &mut String) {
                 out.push_str(&format!(" L{}", it.len()));
             }
         }
+        // axisfold SHAPE a k WHAT : after k calls of next() on iter_axis, one of the provided methods of Iterator that run
+        // the rest of the iterator through fold: count, last, for_each (the views are reported by their items)
+        "axisfold" => {
+            let a = ramp(&parse_list(toks[1]));
+            let ax: usize = toks[2].parse().unwrap();
+            let k: usize = toks[3].parse().unwrap();
+            let mut it = a.iter_axis(Axis(ax));
+            for _ in 0..k {
+                let _ = it.next();
+            }
+            let items = |v: sfs_core::array::view::View<'_, f64>| -> String {
+                let xs: Vec<String> = v.iter().map(|x| int(*x)).collect();
+                if xs.is_empty() { "-".to_string() } else { xs.join(";") }
+            };
+            match toks[4] {
+                "count" => out.push_str(&format!("C{}", it.count())),
+                "last" => match it.last() {
+                    Some(v) => out.push_str(&format!("V{}", items(v))),
+                    None => out.push_str("N"),
+                },
+                _ => {
+                    let mut all = Vec::new();
+                    it.for_each(|v| all.push(items(v)));
+                    out.push_str(&format!("F{}", if all.is_empty() { "none".to_string() } else { all.join("|") }));
+                }
+            }
+        }
         // indices SHAPE k
         "indices" => {
             let a = ramp(&parse_list(toks[1]));
@@ -198,6 +225,10 @@ pub fn run(toks: &[&str], out: &mut String) {
                     }
                     out.push_str(&format!(" G{}", got.join(";")));
                     for (b, len) in shape.iter().enumerate() {
+                        if *len == 0 {
+                            out.push_str(" A0");       // no position along this axis
+                            continue;
+                        }
                         match c.get_axis(Axis(b), len - 1) {
                             Some(w) => {
                                 let items: Vec<String> = w.iter().map(|x| int(*x)).collect();
